@@ -24,6 +24,8 @@ _COPIES = [
     (r"^C02\.fold_settings\.TorchTensorParameter", "C17"),
     (r"^C02\.opt\.outer_reduce_flatten", "C03"),
     (r"^C02\.opt\.outer_reduce_flatten", "C04"),
+    (r"^C02\.opt\.outer_reduce_flatten", "C01"),
+    (r"^C10\.Layer\.copyref\.", "C03"),
     (r"^C01\.kernel\.Torch(Categorical|Gaussian|Binomial)Layer", "C11"),
     (r"^C01\.kernel\.TorchConstantValueLayer", "C03"),
     (r"^C01\.kernel\.TorchEmbeddingLayer", "C06"),
